@@ -1,5 +1,6 @@
 import Ecal.Model.Path
 import Ecal.Lemmas.Path
+import Ecal.Lemmas.PathBytes
 import Ecal.Gen.C17
 /-!
 # C17 — file imports cannot escape the configured root directory
@@ -117,6 +118,40 @@ theorem resolve_opens_clean (root p q : Str) (h : resolve root p = .opened q) :
     exact ⟨clean_idempotent _, clean_render_roundtrip _⟩
   · rw [h1] at h; exact absurd h (by simp)
   · rw [h1] at h; exact absurd h (by simp)
+
+/-! ## The byte loops of Go's `Clean` and `Rel`
+
+The theorems above are about functions on ELEMENT lists. `cleanBytes`, `relBytes`, `resolveBytes`
+(Model/Path.lean) follow Go's loops index by index — lazybuf, `dotdot` index and byte-wise
+backtracking in `Clean`; the `b0/bi/t0/ti` walk, the separator count and the result assembly in `Rel`.
+They are what the driver runs against `path/filepath` and `util/import.go`. -/
+
+/-- **clean_bytes_refines.** The byte loop of `Clean` computes the element-level `cleanStr`, for every byte string. -/
+theorem clean_bytes_refines (s : Str) : cleanBytes s = cleanStr s := cleanBytes_eq_cleanStr s
+
+/-- **rel_bytes_refines.** The index walk of `Rel` computes the element-level `relStr` (same result, same
+    error cases), for all byte strings. -/
+theorem rel_bytes_refines (base targ : Str) : relBytes base targ = relStr base targ := relBytes_eq_relStr base targ
+
+/-- **resolve_bytes_confined.** Confinement for the byte-level model of `Resolve` (Join, Clean, Rel, the
+    string test of `isSubpath` composed as in util/import.go): it is the element-level `resolve`, hence
+    whatever it opens lies inside the root, and it opens exactly `Clean(Join(root, p))` when that is inside. -/
+theorem resolve_bytes_confined (root p : Str) :
+    resolveBytes root p = resolve root p ∧
+      (∀ q, resolveBytes root p = .opened q → inside root q) ∧
+      (∀ q, resolveBytes root p = .opened q ↔ q = cleanBytes (joinBytes root p) ∧ inside root q) := by
+  refine ⟨resolveBytes_eq_resolve root p, ?_, ?_⟩
+  · intro q h
+    rw [resolveBytes_eq_resolve] at h
+    exact resolve_confined root p q h
+  · intro q
+    rw [resolveBytes_eq_resolve, cleanBytes_eq_cleanStr, joinBytes_eq_joinStr]
+    exact resolve_exact root p q
+
+example : cleanBytes (b "a/../../b/./c//") = b "../b/c" := by decide
+example : relBytes (b "a") (b ".") = some (b "../.") := by decide
+example : resolveBytes (b "top/root") (b "../rootX/nm") = .rejected := by decide
+example : resolveBytes (b "top/root") (b "sub/.././/nm") = .opened (b "top/root/nm") := by decide
 
 /-! ## The import statement and the code that configures the locator
 
